@@ -405,7 +405,8 @@ fn explore(p: &Prog, out: &mut Out) {
                     s.trigger_key_interrupt();
                 }
                 for mode in [StepMode::Real, StepMode::Assembly] {
-                    let k = if e % 7 == 3 { 3 } else { 1 };
+                    // mostly one step; three steps at some states; 300 steps in a row from the start state
+                    let k = if e == 0 && !int { 300 } else if e % 7 == 3 { 3 } else { 1 };
                     mc::watch::progress(|| p.line(e, int, k));
                     s.set_step_mode(mode);
                     local.states += 1;
